@@ -47,6 +47,8 @@ def run(ctx):
     recs, cases = [], []
 
     def add(A, q0, q1, exact, fullrank, kind):
+        if rng.random() < 0.25:
+            A = np.asfortranarray(A)          # memory layout is part of the input space (views, column-major arrays)
         recs.append([bondgen.record_qr(ptn, A, q0, q1, exact, fullrank)])
         cases.append(dict(q0=q0, q1=q1, kind=kind, A_re=np.real(A).tolist(), A_im=np.imag(A).tolist()))
         ctx.count([q0, q1, kind], nontrivial=bool(set(q0) & set(q1)))
